@@ -1,9 +1,9 @@
 (* C01: a conforming server stream is decoded frame by frame, in any legal length form. *)
-From Coq Require Import List NArith Arith Lia Bool ZifyN ZifyNat.
+From Coq Require Import List NArith ZArith Arith Lia Bool ZifyN ZifyNat.
 From Coq.Strings Require Import Byte.
 From RecordUpdate Require Import RecordSet.
 From Model Require Import Bytes Utf8 Frame Parser FrameParser Response Conn.
-From Proofs Require Import BytesFacts Utf8Facts ParserFacts FrameParserFacts FrameFacts ConnFacts.
+From Proofs Require Import BytesFacts Utf8Facts ParserFacts FrameParserFacts FrameFacts ConnFacts ApiFacts.
 Import ListNotations RecordSetNotations.
 Open Scope N_scope.
 
@@ -188,3 +188,540 @@ Proof.
     unfold fp_resume at 1. cbn [fp_phase set_phase]. rewrite be_roundtrip by (cbn; lia).
     match goal with |- context [after_len ?g1 ?hh len] => apply (Tail g1); reflexivity end.
 Qed.
+
+(* ====================================================================================================== *)
+(* from frames to events: a passive application and no armed timeout (the quantifier of C01 is over server streams) *)
+
+Definition passive (app : strategy) : Prop := forall tr, app tr = [].
+
+(* the fields the receive path depends on *)
+Definition same_core (c c' : conn) : Prop :=
+  k_ps c' = k_ps c /\ k_frames c' = k_frames c /\ k_closing c' = k_closing c /\ k_closed c' = k_closed c /\
+  k_deflate c' = k_deflate c /\ k_sent_close_time c' = k_sent_close_time c /\ k_ready c' = k_ready c.
+
+Lemma same_core_refl c : same_core c c.
+Proof. unfold same_core. tauto. Qed.
+Lemma same_core_trans a b c : same_core a b -> same_core b c -> same_core a c.
+Proof. unfold same_core. intros (A1&A2&A3&A4&A5&A6&A7) (B1&B2&B3&B4&B5&B6&B7). repeat split; congruence. Qed.
+
+(* message events of a trace, most recent first *)
+Definition is_msg_ev (e : ev) : bool :=
+  match e with EvText _ | EvBinary _ | EvPing _ | EvPong _ | EvClosing _ _ | EvClosed _ _ => true | _ => false end.
+Fixpoint msg_events (tr : list titem) : list ev :=
+  match tr with
+  | [] => []
+  | TEv e :: r => if is_msg_ev e then e :: msg_events r else msg_events r
+  | _ :: r => msg_events r
+  end.
+
+(* a data/control frame that is not a Close never touches the core fields *)
+Lemma send_frame_core c op r p : op <> OP_CLOSE ->
+  same_core c (fst (send_frame c op r p)) /\ msg_events (k_tr (fst (send_frame c op r p))) = msg_events (k_tr c).
+Proof.
+  intros Hop. unfold send_frame, pop_key.
+  assert (Eo : (op =? OP_CLOSE) = false) by (apply N.eqb_neq; exact Hop).
+  assert (W : forall c0 d, same_core c0 (fst (write c0 d false)) /\ msg_events (k_tr (fst (write c0 d false))) = msg_events (k_tr c0)).
+  { intros c0 d. unfold write. destruct (negb (k_sock c0)); [split; [apply same_core_refl|reflexivity]|].
+    destruct (k_closed c0); [split; [apply same_core_refl|reflexivity]|].
+    destruct (k_closing c0); [split; [apply same_core_refl|reflexivity]|].
+    unfold pop_wfault. destruct (k_wfaults c0) as [|w ws]; [split; [unfold same_core; cbn; tauto|reflexivity]|].
+    destruct w; (split; [unfold same_core; cbn; tauto|reflexivity]). }
+  rewrite Eo. destruct (k_keys c) as [|k ks]; [apply W|].
+  destruct (W (c <| k_keys := ks |>) (build op r k p)) as [A B]. split.
+  - eapply same_core_trans; [|exact A]. unfold same_core. cbn. tauto.
+  - rewrite B. reflexivity.
+Qed.
+
+Section Delivery.
+  Variable cf : cfg.
+  Variable app : strategy.
+  Hypothesis app_passive : passive app.
+  Hypothesis no_ping_timeout : zpos (c_ping_timeout cf) = None.
+
+  Lemma deliver_passive c e : deliver app c e = (emit (TEv e) c, SOk).
+  Proof. unfold deliver. rewrite app_passive. reflexivity. Qed.
+
+  (* housekeeping with no armed timeout: never raises, never touches the core, adds no message event *)
+  Lemma regular_quiet c : k_sent_close_time c = None ->
+    snd (regular cf app c) = SOk /\ same_core c (fst (regular cf app c)) /\
+    msg_events (k_tr (fst (regular cf app c))) = msg_events (k_tr c).
+  Proof.
+    intros Hs. unfold regular. destruct (negb (k_ready c)); [repeat split; try reflexivity; apply same_core_refl|].
+    rewrite !deliver_passive, no_ping_timeout.
+    set (t := session_time c).
+    assert (P : exists c1, (match k_poll_start c with
+                 | Some ps => if (t - ps >=? c_poll cf)%Z then (emit (TEv EvPoll) (c <| k_poll_start := Some t |>), SOk) else (c, SOk)
+                 | None => (emit (TEv EvPoll) (c <| k_poll_start := Some t |>), SOk) end) = (c1, SOk)
+               /\ same_core c c1 /\ msg_events (k_tr c1) = msg_events (k_tr c)).
+    { destruct (k_poll_start c) as [ps|]; [destruct (_ >=? _)%Z|]; eexists; (split; [reflexivity|]);
+        (split; [unfold same_core; cbn; tauto|reflexivity]). }
+    destruct P as (c1 & E1 & C1 & M1). rewrite E1.
+    set (c2 := if _ && _ then _ else c1).
+    assert (C2 : same_core c1 c2 /\ msg_events (k_tr c2) = msg_events (k_tr c1)).
+    { unfold c2. destruct (_ && _); [|split; [apply same_core_refl|reflexivity]].
+      destruct (send_frame_core (c1 <| k_next_ping := (Conn.ceil_div t (c_ping_rate cf) * c_ping_rate cf)%Z |>) OP_PING false [] ltac:(discriminate)) as [A B].
+      split; [eapply same_core_trans; [|exact A]; unfold same_core; cbn; tauto|rewrite B; reflexivity]. }
+    destruct C2 as [C2 M2].
+    assert (Hs2 : k_sent_close_time c2 = None).
+    { destruct C1 as (_&_&_&_&_&S1&_). destruct C2 as (_&_&_&_&_&S2&_). congruence. }
+    rewrite Hs2. destruct (zpos (c_close_timeout cf)); cbn [fst snd];
+      (split; [reflexivity|split; [eapply same_core_trans; eauto|congruence]]).
+  Qed.
+
+  (* what the session does around one message event that is not a Close *)
+  Lemma in_feed_yield_msg c e :
+    k_sent_close_time c = None ->
+    (match e with EvPing p => blen p <= 125 | EvClosing _ _ | EvClosed _ _ | EvReady _ _ => False | _ => True end) ->
+    snd (in_feed_yield cf app c e) = SOk /\ same_core c (fst (in_feed_yield cf app c e)) /\
+    msg_events (k_tr (fst (in_feed_yield cf app c e))) = (if is_msg_ev e then [e] else []) ++ msg_events (k_tr c).
+  Proof.
+    intros Hs He. unfold in_feed_yield.
+    assert (O : exists c0, on_event cf c e = (c0, SOk) /\ same_core c c0 /\ msg_events (k_tr c0) = msg_events (k_tr c)).
+    { destruct e; cbn [on_event]; try (eexists; split; [reflexivity|split; [apply same_core_refl|reflexivity]]); try contradiction.
+      - destruct (c_auto_pong cf); [|eexists; split; [reflexivity|split; [apply same_core_refl|reflexivity]]].
+        cbn [api_call]. replace (125 <? blen payload) with false by (symmetry; apply N.ltb_ge; exact He).
+        destruct (send_frame_core c OP_PONG false payload ltac:(discriminate)) as [A B].
+        pose proof (send_frame_no_value_error c OP_PONG false payload) as NV.
+        destruct (send_frame c OP_PONG false payload) as [c0 r]. cbn [fst snd] in *.
+        exists c0. split; [|split; assumption].
+        destruct r as [x|]; [|reflexivity]. destruct x; try reflexivity. congruence.
+      - eexists. split; [reflexivity|]. split; [unfold same_core; cbn; tauto|reflexivity]. }
+    destruct O as (c0 & E0 & C0 & M0). rewrite E0. rewrite deliver_passive.
+    assert (Hs0 : k_sent_close_time (emit (TEv e) c0) = None).
+    { destruct C0 as (_&_&_&_&_&S&_). cbn. congruence. }
+    destruct (regular_quiet (emit (TEv e) c0) Hs0) as (R1 & R2 & R3).
+    destruct (regular cf app (emit (TEv e) c0)) as [c2 st2]. cbn [fst snd] in *. subst st2.
+    split; [reflexivity|]. split.
+    - eapply same_core_trans; [exact C0|]. eapply same_core_trans; [|exact R2]. unfold same_core. cbn. tauto.
+    - rewrite R3. cbn [msg_events k_tr emit]. change (k_tr (emit (TEv e) c0)) with (TEv e :: k_tr c0). cbn [msg_events].
+      rewrite M0. destruct (is_msg_ev e); reflexivity.
+  Qed.
+End Delivery.
+
+(* ====================================================================================================== *)
+(* the reference reading of a conforming frame list *)
+Inductive smsg := SText (p : bytes) | SBinary (p : bytes) | SPing (p : bytes) | SPong (p : bytes).
+Definition ev_of (m : smsg) : ev :=
+  match m with SText p => EvText p | SBinary p => EvBinary p | SPing p => EvPing p | SPong p => EvPong p end.
+
+Definition payload_of (fs : list frame) : bytes := concat (map f_payload fs).
+Definition is_text_msg (fs : list frame) : bool := match fs with f :: _ => f_op f =? OP_TEXT | [] => false end.
+
+(* one conforming frame, given the fragments of the data message that is open (oldest first).
+   None = this is not a conforming continuation of the stream. *)
+Definition ref1 (open : list frame) (f : frame) : option (list smsg * list frame) :=
+  if negb ((f_op f <? 16) && (blen (f_payload f) <? 9223372036854775808)) then None
+  else if validate_err false (hdr_of f) (blen (f_payload f)) then None
+  else if f_op f =? OP_PING then Some ([SPing (f_payload f)], open)
+  else if f_op f =? OP_PONG then Some ([SPong (f_payload f)], open)
+  else if is_control (f_op f) then None                      (* Close is not part of this theorem *)
+  else
+    let cont := f_op f =? OP_CONT in
+    match open with
+    | [] => if cont then None else
+            let fs := [f] in
+            if is_text_msg fs then
+              match uvalidate UAcc (payload_of fs) with
+              | None => None
+              | Some _ => if f_fin f then (if utf8_validb (payload_of fs) then Some ([SText (payload_of fs)], []) else None)
+                          else Some ([], fs)
+              end
+            else if f_fin f then Some ([SBinary (payload_of fs)], []) else Some ([], fs)
+    | _ :: _ => if negb cont then None else
+            let fs := open ++ [f] in
+            if is_text_msg fs then
+              match uvalidate UAcc (payload_of fs) with
+              | None => None
+              | Some _ => if f_fin f then (if utf8_validb (payload_of fs) then Some ([SText (payload_of fs)], []) else None)
+                          else Some ([], fs)
+              end
+            else if f_fin f then Some ([SBinary (payload_of fs)], []) else Some ([], fs)
+    end.
+
+Fixpoint ref_messages (open : list frame) (fs : list frame) : option (list smsg * list frame) :=
+  match fs with
+  | [] => Some ([], open)
+  | f :: rest =>
+      match ref1 open f with
+      | None => None
+      | Some (ms, open1) =>
+          match ref_messages open1 rest with
+          | None => None
+          | Some (ms2, open2) => Some (ms ++ ms2, open2)
+          end
+      end
+  end.
+
+Fixpoint encode_all (fs : list frame) (lfs : list lenform) : bytes :=
+  match fs, lfs with
+  | f :: fs', lf :: lfs' => enc_frame f lf ++ encode_all fs' lfs'
+  | _, _ => []
+  end.
+Fixpoint forms_ok (fs : list frame) (lfs : list lenform) : Prop :=
+  match fs, lfs with
+  | [], [] => True
+  | f :: fs', lf :: lfs' => form_ok lf (blen (f_payload f)) = true /\ forms_ok fs' lfs'
+  | _, _ => False
+  end.
+
+(* ====================================================================================================== *)
+Section Delivery2.
+  Variable cf : cfg.
+  Variable app : strategy.
+  Hypothesis app_passive : passive app.
+  Hypothesis no_ping_timeout : zpos (c_ping_timeout cf) = None.
+
+  (* the connection between two frames of a conforming stream: [open] = fragments of the open data message *)
+  Definition idle (c : conn) (open : list frame) : Prop :=
+    k_closed c = false /\ k_closing c = false /\ k_deflate c = None /\ k_sent_close_time c = None /\
+    k_frames c = open /\ Forall (fun f => f_rsv1 f = false) open /\
+    exists u, at_boundary (k_ps c) (is_text_msg open) u /\
+              (if is_text_msg open then uvalidate UAcc (payload_of open) = Some u else u = UAcc).
+
+  Lemma payload_of_app a b : payload_of (a ++ b) = payload_of a ++ payload_of b.
+  Proof. unfold payload_of. rewrite map_app, concat_app. reflexivity. Qed.
+  Lemma payload_of_one f : payload_of [f] = f_payload f.
+  Proof. unfold payload_of. cbn. apply app_nil_r. Qed.
+
+  (* a message event is yielded and the loop over the stream goes on, the core untouched *)
+  Lemma yield_plain c e :
+    k_sent_close_time c = None ->
+    (match e with EvPing p => blen p <= 125 | EvClosing _ _ | EvClosed _ _ | EvReady _ _ => False | _ => True end) ->
+    exists c1, feed_yield cf app c e (fun c1 => (c1, SOk)) = (c1, SOk) /\ same_core c c1 /\
+               msg_events (k_tr c1) = (if is_msg_ev e then [e] else []) ++ msg_events (k_tr c).
+  Proof.
+    intros Hs He. unfold feed_yield.
+    destruct (in_feed_yield_msg cf app app_passive no_ping_timeout c e Hs He) as (A & B & C).
+    destruct (in_feed_yield cf app c e) as [c1 st]. cbn [fst snd] in *. subst st. exists c1. auto.
+  Qed.
+
+  Lemma first_rsv1 fs f0 : Forall (fun f => f_rsv1 f = false) fs -> f_rsv1 (hd f0 fs) = f_rsv1 f0 \/ f_rsv1 (hd f0 fs) = false.
+  Proof. intros H. destruct fs; [left; reflexivity|right; inversion H; auto]. Qed.
+
+  (* build_message on uncompressed fragments *)
+  Lemma build_plain c fs f0 rest : fs = f0 :: rest -> Forall (fun f => f_rsv1 f = false) fs ->
+    build_message c fs =
+      (c, let p := payload_of fs in
+          let op := f_op f0 in
+          if op =? OP_BINARY then inl (MBinary p)
+          else if op =? OP_TEXT then (if utf8_validb p then inl (MText p) else inr MCritical)
+          else if op =? OP_CLOSE then
+            match p with
+            | [] => inl (MClose None [])
+            | [_] => inr MProtocol
+            | a :: b :: reason => if utf8_validb reason then inl (MClose (Some (be_decode [a; b])) reason) else inr MCritical
+            end
+          else if op =? OP_PING then inl (MPing p)
+          else if op =? OP_PONG then inl (MPong p)
+          else inl MOther).
+  Proof.
+    intros -> H. inversion H as [|? ? H0 _]; subst. unfold build_message. cbn [hd]. rewrite H0.
+    unfold payload_of. cbv zeta.
+    repeat match goal with |- context [if ?b then _ else _] => destruct b end; try reflexivity;
+      destruct (concat (map f_payload (f0 :: rest))) as [|a [|b r]]; try reflexivity; destruct (utf8_validb r); reflexivity.
+  Qed.
+
+  (* one conforming frame through WebsocketStream.feed and WebSocket.feed *)
+  Definition data_head (open : list frame) : Prop :=
+    match open with o :: _ => (f_op o =? OP_TEXT) || (f_op o =? OP_BINARY) = true | [] => True end.
+
+  Theorem frame_step c open f ms open1 :
+    k_closed c = false -> k_closing c = false -> k_deflate c = None -> k_sent_close_time c = None ->
+    k_frames c = open -> Forall (fun f => f_rsv1 f = false) open -> data_head open -> f_rsv1 f = false ->
+    ref1 open f = Some (ms, open1) ->
+    exists c1, on_item cf app c (IFrame f) = (c1, SOk, FContinue) /\
+               k_ps c1 = k_ps c /\ k_closed c1 = false /\ k_closing c1 = false /\ k_deflate c1 = None /\
+               k_sent_close_time c1 = None /\ k_frames c1 = open1 /\ Forall (fun f => f_rsv1 f = false) open1 /\
+               data_head open1 /\
+               msg_events (k_tr c1) = rev (map ev_of ms) ++ msg_events (k_tr c).
+  Proof.
+    intros Hcl Hcg Hdf Hsc Hfr Hop Hdh Hr1 Href. unfold ref1 in Href.
+    destruct (negb _) eqn:Eb; [discriminate|]. apply negb_false_iff in Eb. apply andb_true_iff in Eb as [Eop Elen].
+    destruct (validate_err false (hdr_of f) (blen (f_payload f))) eqn:Ev; [discriminate|].
+    assert (Control : forall e m, is_control (f_op f) = true -> build_message c [f] = (c, inl m) ->
+              on_message cf app c m = (let '(c1, st) := feed_yield cf app c e (fun c1 => (c1, SOk)) in (c1, st, FContinue)) ->
+              (match e with EvPing p => blen p <= 125 | EvClosing _ _ | EvClosed _ _ | EvReady _ _ => False | _ => True end) ->
+              is_msg_ev e = true ->
+              exists c1, on_item cf app c (IFrame f) = (c1, SOk, FContinue) /\
+               k_ps c1 = k_ps c /\ k_closed c1 = false /\ k_closing c1 = false /\ k_deflate c1 = None /\
+               k_sent_close_time c1 = None /\ k_frames c1 = open /\ Forall (fun f => f_rsv1 f = false) open /\
+               data_head open /\
+               msg_events (k_tr c1) = [e] ++ msg_events (k_tr c)).
+    { intros e m Hc Hb Hm He Hme. unfold on_item, stream_frame. rewrite Hc, Hb, Hm.
+      destruct (yield_plain c e Hsc He) as (c1 & E1 & (S1&S2&S3&S4&S5&S6&S7) & M1). rewrite E1, Hme in *.
+      exists c1. repeat split; try congruence. }
+    assert (Hctl125 : is_control (f_op f) = true -> blen (f_payload f) <= 125).
+    { intros Hc. unfold validate_err in Ev. cbn [hdr_of h_op h_fin h_r1 h_r2 h_r3] in Ev. rewrite Hc in Ev.
+      apply orb_false_iff in Ev as [_ Ev]. cbn [andb] in Ev. apply N.ltb_ge in Ev. exact Ev. }
+    destruct (f_op f =? OP_PING) eqn:Eping.
+    { apply N.eqb_eq in Eping. inversion Href; subst ms open1. clear Href.
+      assert (Hc : is_control (f_op f) = true) by (rewrite Eping; reflexivity).
+      destruct (Control (EvPing (f_payload f)) (MPing (f_payload f)) Hc) as (c1 & H); auto.
+      - rewrite (build_plain c [f] f [] eq_refl ltac:(constructor; auto)). rewrite payload_of_one, Eping. reflexivity.
+      - exists c1. exact H. }
+    destruct (f_op f =? OP_PONG) eqn:Epong.
+    { apply N.eqb_eq in Epong. inversion Href; subst ms open1. clear Href.
+      assert (Hc : is_control (f_op f) = true) by (rewrite Epong; reflexivity).
+      destruct (Control (EvPong (f_payload f)) (MPong (f_payload f)) Hc) as (c1 & H); auto.
+      - rewrite (build_plain c [f] f [] eq_refl ltac:(constructor; auto)). rewrite payload_of_one, Epong. reflexivity.
+      - exists c1. exact H. }
+    destruct (is_control (f_op f)) eqn:Ectl; [discriminate|].
+    (* data frames *)
+    assert (Data : forall fs f0 rest0, fs = f0 :: rest0 -> Forall (fun f => f_rsv1 f = false) fs ->
+              (f_op f0 =? OP_TEXT) = is_text_msg fs -> (f_op f0 =? OP_TEXT) || (f_op f0 =? OP_BINARY) = true ->
+              forall c0, same_core c c0 -> k_tr c0 = k_tr c ->
+              (if is_text_msg fs then
+                 match uvalidate UAcc (payload_of fs) with
+                 | None => None
+                 | Some _ => if f_fin f then (if utf8_validb (payload_of fs) then Some ([SText (payload_of fs)], []) else None) else Some ([], fs)
+                 end
+               else if f_fin f then Some ([SBinary (payload_of fs)], []) else Some ([], fs)) = Some (ms, open1) ->
+              f_fin f = true ->
+              exists c1, (let '(c2, r) := build_message c0 fs in
+                          match r with inl m => on_message cf app c2 m | inr e => let '(c3, st) := raise_in_feed cf app c2 e in (c3, st, FBreak) end)
+                         = (c1, SOk, FContinue) /\ same_core c0 c1 /\ open1 = [] /\
+                         msg_events (k_tr c1) = rev (map ev_of ms) ++ msg_events (k_tr c)).
+    { intros fs f0 rest0 Efs Hfs Htx Hkind c0 Hc0 Htr Hrf Hfin. rewrite Hfin in Hrf.
+      rewrite (build_plain c0 fs f0 rest0 Efs Hfs). cbv zeta.
+      assert (Hs0 : k_sent_close_time c0 = None) by (destruct Hc0 as (_&_&_&_&_&S&_); congruence).
+      destruct (is_text_msg fs) eqn:Et.
+      - rewrite Htx. replace (OP_TEXT =? OP_BINARY) with false by reflexivity.
+        assert (Eb2 : (f_op f0 =? OP_BINARY) = false).
+        { apply N.eqb_eq in Htx. rewrite Htx. reflexivity. }
+        rewrite Eb2. destruct (uvalidate UAcc (payload_of fs)); [|discriminate].
+        destruct (utf8_validb (payload_of fs)); [|discriminate]. inversion Hrf; subst ms open1.
+        unfold on_message.
+        destruct (yield_plain c0 (EvText (payload_of fs)) Hs0 I) as (c1 & E1 & S1 & M1). rewrite E1.
+        exists c1. split; [reflexivity|]. split; [exact S1|]. split; [reflexivity|]. rewrite M1, Htr. reflexivity.
+      - rewrite Htx in Hkind. cbn [orb] in Hkind. rewrite Hkind. inversion Hrf; subst ms open1.
+        unfold on_message.
+        destruct (yield_plain c0 (EvBinary (payload_of fs)) Hs0 I) as (c1 & E1 & S1 & M1). rewrite E1.
+        exists c1. split; [reflexivity|]. split; [exact S1|]. split; [reflexivity|]. rewrite M1, Htr. reflexivity. }
+    unfold on_item, stream_frame. rewrite Ectl, Hfr.
+    destruct open as [|o0 orest].
+    - (* first frame of a data message *)
+      destruct (f_op f =? OP_CONT) eqn:Econt; [discriminate|]. cbn [negb] in *.
+      assert (Hkind : (f_op f =? OP_TEXT) || (f_op f =? OP_BINARY) = true).
+      { (* a non-reserved, non-control, non-continuation opcode below 16 is TEXT or BINARY *)
+        unfold validate_err in Ev. cbn [hdr_of h_op] in Ev. apply orb_false_iff in Ev as [Ev _]. apply orb_false_iff in Ev as [Ev _].
+        apply orb_false_iff in Ev as [_ Ev]. unfold is_reserved in Ev. unfold is_control in Ectl.
+        apply N.ltb_lt in Eop. apply N.eqb_neq in Econt. apply N.leb_gt in Ectl.
+        apply orb_false_iff in Ev as [Ev1 _]. apply andb_false_iff in Ev1.
+        assert (f_op f = 1 \/ f_op f = 2) as [->| ->]; [|reflexivity|reflexivity].
+        destruct Ev1 as [Ev1|Ev1]; [apply N.leb_gt in Ev1|apply N.leb_gt in Ev1]; unfold OP_CONT in *; lia. }
+      destruct (f_fin f) eqn:Efin.
+      + destruct (Data [f] f [] eq_refl ltac:(constructor; auto) eq_refl Hkind c (same_core_refl c) eq_refl Href eq_refl)
+          as (c1 & E1 & (S1&S2&S3&S4&S5&S6&S7) & -> & M1).
+        exists c1. split; [exact E1|]. repeat split; try congruence; try constructor; try exact I.
+      + (* a first fragment: parked, no event *)
+        assert (Hopen : ms = [] /\ open1 = [f]).
+        { cbn [is_text_msg] in Href. destruct (f_op f =? OP_TEXT); [destruct (uvalidate UAcc (payload_of [f])); [|discriminate]|];
+            inversion Href; auto. }
+        destruct Hopen as [-> ->]. eexists. split; [reflexivity|]. cbn. repeat split; auto.
+    - (* a continuation frame *)
+      destruct (f_op f =? OP_CONT) eqn:Econt; cbn [negb] in *; [|discriminate].
+      inversion Hop as [|? ? Ho0 Horest]; subst.
+      assert (Hall : Forall (fun f1 => f_rsv1 f1 = false) ((o0 :: orest) ++ [f])) by (apply Forall_app; split; [exact Hop|constructor; auto]).
+      destruct (f_fin f) eqn:Efin.
+      + (* the message completes *)
+        set (c0 := c <| k_frames := [] |>).
+        assert (Hc0 : same_core c c0 -> True) by auto.
+        assert (Sc0 : k_ps c0 = k_ps c /\ k_closing c0 = k_closing c /\ k_closed c0 = k_closed c /\ k_deflate c0 = k_deflate c /\
+                      k_sent_close_time c0 = k_sent_close_time c /\ k_ready c0 = k_ready c /\ k_tr c0 = k_tr c) by (cbn; tauto).
+        (* Data is stated with same_core, which fixes k_frames: restate what it needs for c0 directly *)
+        assert (Hs0 : k_sent_close_time c0 = None) by (cbn; exact Hsc).
+        rewrite (build_plain c0 ((o0 :: orest) ++ [f]) o0 (orest ++ [f]) eq_refl Hall). cbv zeta.
+        change (is_text_msg ((o0 :: orest) ++ [f])) with (f_op o0 =? OP_TEXT) in Href.
+        cbn [data_head] in Hdh.
+        destruct (f_op o0 =? OP_TEXT) eqn:Et.
+        * assert (Eb2 : (f_op o0 =? OP_BINARY) = false) by (apply N.eqb_eq in Et; rewrite Et; reflexivity).
+          rewrite Eb2. destruct (uvalidate UAcc (payload_of ((o0 :: orest) ++ [f]))); [|discriminate].
+          destruct (utf8_validb (payload_of ((o0 :: orest) ++ [f]))); [|discriminate]. inversion Href; subst ms open1.
+          unfold on_message.
+          destruct (yield_plain c0 (EvText (payload_of ((o0 :: orest) ++ [f]))) Hs0 I) as (c1 & E1 & (S1&S2&S3&S4&S5&S6&S7) & M1). rewrite E1.
+          exists c1. split; [reflexivity|]. cbn in S1, S2, S3, S4, S5, S6. repeat split; try congruence; try constructor; try exact I.
+          rewrite M1. reflexivity.
+        * cbn [orb] in Hdh. rewrite Hdh. inversion Href; subst ms open1.
+          unfold on_message.
+          destruct (yield_plain c0 (EvBinary (payload_of ((o0 :: orest) ++ [f]))) Hs0 I) as (c1 & E1 & (S1&S2&S3&S4&S5&S6&S7) & M1). rewrite E1.
+          exists c1. split; [reflexivity|]. cbn in S1, S2, S3, S4, S5, S6. repeat split; try congruence; try constructor; try exact I.
+          rewrite M1. reflexivity.
+      + assert (Hopen : ms = [] /\ open1 = (o0 :: orest) ++ [f]).
+        { change (is_text_msg ((o0 :: orest) ++ [f])) with (f_op o0 =? OP_TEXT) in Href.
+          destruct (f_op o0 =? OP_TEXT); [destruct (uvalidate UAcc (payload_of ((o0 :: orest) ++ [f]))); [|discriminate]|];
+            inversion Href; auto. }
+        destruct Hopen as [-> ->]. eexists. split; [reflexivity|]. cbn. repeat split; auto.
+  Qed.
+End Delivery2.
+
+(* ====================================================================================================== *)
+(* the text bookkeeping of the parser follows the reference reading *)
+Definition text_state (open : list frame) (u : ustate) : Prop :=
+  if is_text_msg open then uvalidate UAcc (payload_of open) = Some u else u = UAcc.
+
+Lemma payload_of_app' a b : payload_of (a ++ b) = payload_of a ++ payload_of b.
+Proof. unfold payload_of. rewrite map_app, concat_app. reflexivity. Qed.
+Lemma payload_of_one' f : payload_of [f] = f_payload f.
+Proof. unfold payload_of. cbn. apply app_nil_r. Qed.
+
+Lemma is_text_msg_app o rest f : is_text_msg ((o :: rest) ++ [f]) = is_text_msg (o :: rest).
+Proof. reflexivity. Qed.
+
+(* for a frame the reference accepts: the incremental validator accepts its payload from the current state, and the
+   parser's flags after the frame describe the reference's new open message *)
+Lemma ref1_parser open f ms open1 u :
+  data_head open -> text_state open u -> ref1 open f = Some (ms, open1) ->
+  exists u', (textual f (is_text_msg open) = true -> uvalidate u (f_payload f) = Some u') /\
+             is_text_after f (is_text_msg open) = is_text_msg open1 /\
+             text_state open1 (u_after f (is_text_msg open) u u').
+Proof.
+  intros Hdh Hts Href. unfold ref1 in Href.
+  destruct (negb _) eqn:Eb; [discriminate|].
+  destruct (validate_err false (hdr_of f) (blen (f_payload f))) eqn:Ev; [discriminate|].
+  assert (Hfinctl : is_control (f_op f) = true -> f_fin f = true).
+  { intros Hc. unfold validate_err in Ev. cbn [hdr_of h_op h_fin h_r1 h_r2 h_r3] in Ev. rewrite Hc in Ev.
+    destruct (f_fin f); [reflexivity|]. cbn in Ev. rewrite orb_true_r in Ev. discriminate. }
+  (* control frames: nothing changes *)
+  assert (Ctl : is_control (f_op f) = true -> f_op f <> OP_TEXT -> f_op f <> OP_CONT -> open1 = open ->
+          exists u', (textual f (is_text_msg open) = true -> uvalidate u (f_payload f) = Some u') /\
+             is_text_after f (is_text_msg open) = is_text_msg open1 /\
+             text_state open1 (u_after f (is_text_msg open) u u')).
+  { intros Hc Hnt Hnc ->. exists u.
+    assert (E1 : (f_op f =? OP_TEXT) = false) by (apply N.eqb_neq; exact Hnt).
+    assert (E2 : (f_op f =? OP_CONT) = false) by (apply N.eqb_neq; exact Hnc).
+    unfold textual, is_text_after, u_after, textual. rewrite E1, E2, Hc, (Hfinctl Hc). cbn [orb andb negb].
+    split; [discriminate|]. split; [reflexivity|exact Hts]. }
+  destruct (f_op f =? OP_PING) eqn:Eping.
+  { apply N.eqb_eq in Eping. inversion Href; subst. apply Ctl; try reflexivity; rewrite Eping; try reflexivity; discriminate. }
+  destruct (f_op f =? OP_PONG) eqn:Epong.
+  { apply N.eqb_eq in Epong. inversion Href; subst. apply Ctl; try reflexivity; rewrite Epong; try reflexivity; discriminate. }
+  destruct (is_control (f_op f)) eqn:Ectl; [discriminate|].
+  (* the common tail of both data cases: fs = the fragments including this frame; prev = payload before this frame *)
+  assert (Tail : forall (fs : list frame) (prev : bytes) (t : bool), payload_of fs = prev ++ f_payload f ->
+            (if t then uvalidate UAcc prev = Some u else u = UAcc) ->
+            t = is_text_msg fs -> fs <> [] ->
+            (textual f (is_text_msg open) = t) ->
+            (is_text_after f (is_text_msg open) = if f_fin f then false else t) ->
+            (if is_text_msg fs then
+               match uvalidate UAcc (payload_of fs) with
+               | None => None
+               | Some _ => if f_fin f then (if utf8_validb (payload_of fs) then Some ([SText (payload_of fs)], []) else None) else Some ([], fs)
+               end
+             else if f_fin f then Some ([SBinary (payload_of fs)], []) else Some ([], fs)) = Some (ms, open1) ->
+            (f_fin f = true -> (f_op f =? OP_TEXT) || (f_op f =? OP_CONT) = true \/ t = false) ->
+            exists u', (textual f (is_text_msg open) = true -> uvalidate u (f_payload f) = Some u') /\
+               is_text_after f (is_text_msg open) = is_text_msg open1 /\
+               text_state open1 (u_after f (is_text_msg open) u u')).
+  { intros fs prev t Hpay Hu Ht Hne Htx Hita Hrf Hreset. rewrite <- Ht in Hrf. rewrite Htx, Hita.
+    destruct t.
+    - (* a text message *)
+      rewrite Hpay, uvalidate_app, Hu in Hrf.
+      destruct (uvalidate u (f_payload f)) as [u'|] eqn:Ev2; [|discriminate].
+      exists u'. split; [intros _; reflexivity|].
+      unfold u_after. rewrite Htx. destruct (f_fin f) eqn:Efin.
+      + destruct (utf8_validb (prev ++ f_payload f)); [|discriminate]. inversion Hrf; subst.
+        split; [reflexivity|]. unfold text_state. cbn [is_text_msg].
+        destruct (Hreset eq_refl) as [Hr|Hr]; [rewrite Hr; reflexivity|discriminate].
+      + inversion Hrf; subst. split; [exact Ht|].
+        unfold text_state. rewrite <- Ht. cbn [andb]. rewrite Hpay, uvalidate_app, Hu.
+        destruct (blen (f_payload f) =? 0) eqn:Ez; cbn [negb].
+        * apply N.eqb_eq in Ez. assert (f_payload f = []) as -> by (unfold blen in Ez; destruct (f_payload f); [reflexivity|cbn in Ez; lia]).
+          reflexivity.
+        * exact Ev2.
+    - (* a binary message *)
+      exists u. split; [discriminate|]. unfold u_after. rewrite Htx. cbn [andb].
+      destruct (f_fin f) eqn:Efin; inversion Hrf; subst.
+      + split; [reflexivity|]. unfold text_state. cbn [is_text_msg].
+        destruct ((f_op f =? OP_TEXT) || (f_op f =? OP_CONT)); reflexivity.
+      + split; [exact Ht|]. unfold text_state. rewrite <- Ht. reflexivity. }
+  destruct open as [|o0 orest].
+  - destruct (f_op f =? OP_CONT) eqn:Econt; [discriminate|]. cbn [negb] in *.
+    unfold text_state in Hts. cbn [is_text_msg] in Hts. subst u.
+    apply (Tail [f] [] (f_op f =? OP_TEXT)); auto.
+    + rewrite payload_of_one'. reflexivity.
+    + destruct (f_op f =? OP_TEXT); reflexivity.
+    + discriminate.
+    + unfold textual. cbn [is_text_msg]. rewrite Econt. cbn [andb]. rewrite orb_false_r. reflexivity.
+    + unfold is_text_after. cbn [is_text_msg]. rewrite Ectl. cbn [negb]. rewrite andb_true_r.
+      destruct (f_fin f); [reflexivity|]. destruct (f_op f =? OP_TEXT); reflexivity.
+    + intros _. destruct (f_op f =? OP_TEXT); [left; reflexivity|right; reflexivity].
+  - destruct (f_op f =? OP_CONT) eqn:Econt; cbn [negb] in *; [|discriminate].
+    assert (Hnt : (f_op f =? OP_TEXT) = false) by (apply N.eqb_eq in Econt; rewrite Econt; reflexivity).
+    apply (Tail ((o0 :: orest) ++ [f]) (payload_of (o0 :: orest)) (is_text_msg (o0 :: orest))); auto.
+    + rewrite payload_of_app', payload_of_one'. reflexivity.
+    + discriminate.
+    + unfold textual. rewrite Hnt, Econt. cbn [orb andb]. reflexivity.
+    + unfold is_text_after. rewrite Hnt, Ectl. cbn [negb]. rewrite andb_true_r. destruct (f_fin f); reflexivity.
+    + intros _. left. rewrite ?Econt. apply orb_true_r.
+Qed.
+
+(* ====================================================================================================== *)
+(* C01, the whole stream: any sequence of frames the reference reading accepts, each in any legal length form *)
+Section Delivery3.
+  Variable cf : cfg.
+  Variable app : strategy.
+  Hypothesis app_passive : passive app.
+  Hypothesis no_ping_timeout : zpos (c_ping_timeout cf) = None.
+
+  Lemma at_boundary_ok s t u : at_boundary s t u -> fp_ok s.
+  Proof. intros ->. unfold fp_ok, st_ok. cbn. lia. Qed.
+
+  Lemma set_ps_same (c : conn) : c <| k_ps := k_ps c |> = c.
+  Proof. destruct c; reflexivity. Qed.
+
+  Lemma ref1_valid open f r : ref1 open f = Some r -> validate_err false (hdr_of f) (blen (f_payload f)) = false.
+  Proof.
+    unfold ref1. destruct (negb _); [discriminate|].
+    destruct (validate_err false (hdr_of f) (blen (f_payload f))); [discriminate|reflexivity].
+  Qed.
+
+  Theorem deliver_frames fs : forall lfs c open ms open',
+    idle c open -> data_head open -> Forall plain fs -> forms_ok fs lfs ->
+    ref_messages open fs = Some (ms, open') ->
+    exists c', feedf cf app c (encode_all fs lfs) = (c', SOk) /\ idle c' open' /\ data_head open' /\
+               msg_events (k_tr c') = rev (map ev_of ms) ++ msg_events (k_tr c).
+  Proof.
+    induction fs as [|f rest IH]; intros lfs c open ms open' Hidle Hdh Hpl Hforms Href.
+    - destruct lfs; [|contradiction]. cbn in Href. inversion Href; subst ms open'. cbn [encode_all].
+      pose proof Hidle as (Hcl & _ & _ & _ & _ & _ & u & Hab & _).
+      rewrite feedf_unfold by (eapply at_boundary_ok; exact Hab). unfold feed_body. rewrite Hcl.
+      rewrite fp_pull_unfold by (eapply at_boundary_ok; exact Hab). unfold pull_body.
+      rewrite set_ps_same. exists c. auto.
+    - destruct lfs as [|lf lfs]; [contradiction|]. destruct Hforms as [Hform Hforms].
+      inversion Hpl as [|? ? Hpf Hprest]; subst.
+      cbn [ref_messages] in Href.
+      destruct (ref1 open f) as [[ms1 open1]|] eqn:E1; [|discriminate].
+      destruct (ref_messages open1 rest) as [[ms2 open2]|] eqn:E2; [|discriminate].
+      inversion Href; subst ms open'. clear Href.
+      destruct Hidle as (Hcl & Hcg & Hdf & Hsc & Hfr & Hrs & u & Hab & Hu).
+      destruct (ref1_parser open f ms1 open1 u Hdh Hu E1) as (u' & Hval & Hita & Hts).
+      destruct (pull_one_frame (k_ps c) (is_text_msg open) u f lf (encode_all rest lfs) u' Hab Hpf Hform
+                  (ref1_valid _ _ _ E1) Hval) as (s' & Hpull & Hab').
+      cbn [encode_all].
+      rewrite feedf_unfold by (eapply at_boundary_ok; exact Hab). unfold feed_body. rewrite Hcl, Hpull.
+      destruct (frame_step cf app app_passive no_ping_timeout (c <| k_ps := s' |>) open f ms1 open1)
+        as (c1 & Eitem & S1 & S2 & S3 & S4 & S5 & S6 & S7 & S8 & S9); auto.
+      { destruct Hpf as (A & _). exact A. }
+      rewrite Eitem.
+      destruct (IH lfs c1 open1 ms2 open2) as (c' & Efeed & Hidle' & Hdh' & Hmsgs); auto.
+      { unfold idle. repeat split; auto. exists (u_after f (is_text_msg open) u u'). split.
+        - rewrite S1. cbn. rewrite <- Hita. exact Hab'.
+        - exact Hts. }
+      exists c'. split; [exact Efeed|]. split; [exact Hidle'|]. split; [exact Hdh'|].
+      rewrite Hmsgs, S9. cbn. rewrite map_app, rev_app_distr, app_assoc. reflexivity.
+  Qed.
+
+  Lemma idle_ok c open : idle c open -> fp_ok (k_ps c).
+  Proof. intros (_ & _ & _ & _ & _ & _ & u & Hab & _). eapply at_boundary_ok; exact Hab. Qed.
+
+  (* ... and however the bytes are cut into reads *)
+  Corollary deliver_frames_chunked fs lfs ds c open ms open' :
+    idle c open -> data_head open -> Forall plain fs -> forms_ok fs lfs ->
+    ref_messages open fs = Some (ms, open') -> concat ds = encode_all fs lfs ->
+    exists c', feed_chunks cf app c ds = (c', SOk) /\ idle c' open' /\ data_head open' /\
+               msg_events (k_tr c') = rev (map ev_of ms) ++ msg_events (k_tr c).
+  Proof.
+    intros Hi Hd Hp Hf Hr Hc. rewrite feed_chunks_concat by (eapply idle_ok; exact Hi). rewrite Hc.
+    eapply deliver_frames; eauto.
+  Qed.
+End Delivery3.
